@@ -13,7 +13,7 @@ def run(ctx):
     ctx.rule = RULE
     ctx.regen(); ctx.prove()
     corr.emit(ctx, ctx.n(2000, 20000))
-    rng = ctx.rng; cases = []; cap = ctx.n(40, 400)
+    rng = ctx.rng; cases = []; cap = ctx.n(40, 120)
     for i in range(ctx.n(250, 2500)):
         v = values.build(rng, rng.choice([1, 2, 3, 4]), [], odd_tz=False)
         o = c02.opts(rng); o['encoding'] = None
@@ -22,7 +22,7 @@ def run(ctx):
     for t in docs:
         try: t.encode('utf-8')
         except UnicodeEncodeError: continue
-        t = t * rng.choice([1, 1, 30, 200])
+        k = rng.choice([1, 1, 30, 200]); t = t * max(1, min(k, 40000 // (len(t) + 1)))          # several refill blocks, bounded total size
         cases.append(['load', [t, rng.choice([[], [1] * 50, [7, 100, 4096], [4095, 2]]), rng.random() < 0.5], rng.choice(['py', 'py', 'c']), cap])
     for n in (1, 2, 3, 5, 8):
         for be in ('py', 'c'):
